@@ -397,6 +397,30 @@ func runC06(r *report.Run) {
 		}
 		return "", "", n, nil
 	}, r, 256)
+	// every instruction method of the emitter that takes no label (two operand patterns each) as a symbol:
+	// all histories of length <= 2 over the alphabet extended by them, under the listing-off variants
+	{
+		var vs []asmVariant
+		for _, v := range variants {
+			if !v.Listing {
+				vs = append(vs, v)
+			}
+		}
+		mo := asmMethodOps()
+		h2, t2, _ := asmHistorySearch(2, vs, func(v asmVariant, al []asmOp, idx []int) (string, string, int, *asmHistory) {
+			ops := make([]asmOp, len(idx))
+			for i, k := range idx {
+				ops[i] = al[k]
+			}
+			if d := c06History(v, 256, ops); d != "" {
+				return "unexplained:finalize", fmt.Sprintf("%+v %v: %s", v, historyNames(al, idx), d), 1, nil
+			}
+			return "", "", 1, nil
+		}, r, 256, mo...)
+		hist += h2
+		trans += t2
+		r.Set("method_symbols", len(mo))
+	}
 	// distance sweep
 	var dist []c06Dist
 	lim := 300
